@@ -7,7 +7,7 @@ use maybenot_simulator::{parse_trace, sim_advanced, SimEvent};
 use serde_json::json;
 
 use crate::props::sim::{fmt_ev, gen_case, is_tunnel, run_sim, SimCase, SimOutcome};
-use crate::util::{hash_of, xo, Pick};
+use crate::util::{hash_of, xo, Pick, Xo};
 use crate::{panic_sig, take_panic, CaseCx, Out, Prop, Tier};
 
 #[derive(Default)]
@@ -31,6 +31,18 @@ fn run_raw(c: &SimCase, sq: &mut maybenot_simulator::queue::SimQueue) -> Result<
             Err((msg, loc, sig))
         }
     }
+}
+
+/// 33 000 - 45 000 lines, both directions, gaps of 20 us to 3 ms (well below any rate limit derived from it).
+fn long_trace(r: &mut Xo) -> Vec<(u64, bool)> {
+    let n = r.range(33_000, 45_000) as usize;
+    let mut t = 0u64;
+    let mut v = Vec::with_capacity(n);
+    for _ in 0..n {
+        v.push((t, r.chance(1, 2)));
+        t += r.range(20, 3_000) * 1_000;
+    }
+    v
 }
 
 impl Prop for C19 {
@@ -57,6 +69,19 @@ impl Prop for C19 {
             _ => None,
         };
         c.max_iter = *r.pick(&[1, 7, 100, 1000, 2500]);
+        let long = cx.case % 65536 == 1;
+        if long {
+            // scale: a base trace of 33 000 - 45 000 packets without machines and without any bound of its own,
+            // i.e. more than 2^17 recorded events in the unfiltered run
+            c.lines = long_trace(&mut r);
+            c.client.clear();
+            c.server.clear();
+            c.pps = None;
+            c.max_iter = 0;
+            c.max_trace_length = 0;
+            c.trigger_delay_us = 0;
+            out.bump("long_traces_(more_than_2^17_events_recorded)");
+        }
         out.evaluations += 1;
         crate::hb_tag("c19-run");
         // (1) two runs from one parsed queue (cloned): identical
@@ -93,7 +118,7 @@ impl Prop for C19 {
             return;
         }
         out.bump("run_pairs_compared");
-        if u1.len() > c.max_iter {
+        if c.max_iter > 0 && u1.len() > c.max_iter {
             out.violation("C19/iteration-bound-exceeded", format!("{} events returned with max_sim_iterations = {}", u1.len(), c.max_iter), c.to_json());
             return;
         }
@@ -177,7 +202,9 @@ impl Prop for C19 {
         if u1.len() >= 2 {
             out.nontrivial(hash_of(&(c.trace_string(), c.delay_ns, c.seed, c.pps, c.max_iter, c.client.iter().chain(c.server.iter()).map(|m| m.serialize()).collect::<Vec<_>>())));
         }
+        if !long {
         out.sample(|| json!({"case": c.to_json(), "returned": crate::props::sim::flatten(&u1, base).unwrap_or_default().iter().take(12).map(fmt_ev).collect::<Vec<_>>()}));
+        }
     }
 
     fn finish(&mut self, out: &mut Out) {
